@@ -189,6 +189,8 @@ func (e *Engine) addHarnessAPI(p string) {
 			o.PoolAny = v != 0
 		case "globalrace":
 			o.GlobalRace = v != 0
+		case "callrace":
+			o.CallRace = v != 0
 		case "exprtable":
 			o.ExprTable = v != 0
 		default:
